@@ -1,5 +1,5 @@
 (* The class of workflows and operations for which C01 (progress) is proved for every run (proofs/Progress.v): steps in
-   sequence whose acts are interactive acts; any schedule; complete / submit / remove on any task at any time.
+   sequence whose acts are interactive (irq) acts or message (msg) acts; any schedule; complete / submit / remove on any task at any time.
    Definitions only (they are also extracted: the generator of the class corpus checks membership with them). *)
 From Coq Require Import List Arith ZArith Bool.
 Import ListNotations.
@@ -15,7 +15,7 @@ Definition frag_node (ns : list node) (n : node) : bool :=
   negb (nkind_beq (n_kind n) KBranch) &&
   Nat.eqb (n_level n) (lvl_of (n_kind n)) &&
   Nat.leb (length (n_children n)) 1 &&      (* steps are chained by `next`, acts of a step too: one task at a time under a parent *)
-  (if nkind_beq (n_kind n) KAct then match sp_u (n_spec n) with UIrq => true | _ => false end && match n_children n with [] => true | _ => false end else true) &&
+  (if nkind_beq (n_kind n) KAct then match sp_u (n_spec n) with UIrq | UMsg => true | _ => false end && match n_children n with [] => true | _ => false end && negb (n_isset n) else true) &&
   forallb (fun kc => okind_beq (fst kc) ONormal && Nat.ltb (snd kc) (length ns) &&
                      nkind_beq (n_kind (nth (snd kc) ns dnode)) (child_kind (n_kind n))) (n_children n) &&
   match n_next n with
